@@ -146,6 +146,21 @@ func (v *VerifSendGlueConn) SetKeysDropped(level int) {
 	}
 }
 
+// KeysAvailable: the sealer of that level exists right now (1 Initial, 2 Handshake, 3 0-RTT, 4 1-RTT).
+func (v *VerifSendGlueConn) KeysAvailable(level int) bool {
+	switch level {
+	case 1:
+		return v.keys.initial
+	case 2:
+		return v.keys.handshake
+	case 3:
+		return v.keys.zeroRTT
+	case 4:
+		return v.keys.oneRTT
+	}
+	return false
+}
+
 // WriteCrypto hands n bytes of handshake data to the Initial (level 1) or Handshake (level 2) crypto stream.
 func (v *VerifSendGlueConn) WriteCrypto(level int, n int) error {
 	data := make([]byte, n)
